@@ -101,6 +101,7 @@ def replay(cex):
         variants.append(('filter(%r)' % texts[::-1], lambda c: c.filter(list(texts[::-1]))))
         variants.append(('sequential', lambda c: c.filter(texts[0]).filter(texts[1])))
     variants.append(('twice', lambda c: c.filter(list(texts)).filter(list(texts))))
+    variants.append(('copy (in_place=False) then the same statements in place', lambda c: (c.filter(list(texts), in_place=False), c.filter(list(texts)))[1]))
     for nm, f in variants:
         got = ids(f(_real_cat(rows)))
         if got != want:
@@ -285,6 +286,23 @@ def _job_single(job):
                                        '%s %s (%s form, in_place=%s)' % (attr, op, form, in_place), 60)
                 from .C16 import _aggregate
                 obs += _aggregate(o, paths, trunc)
+        # call history: a filtered copy is requested first (in_place=False), then the same statements are applied in place
+        def run2():
+            sym.assume()
+            st.assume()
+            cat = sym.cat(cats)
+            txt = st.text()
+            a = cat.filter([txt], in_place=False)
+            b = cat.filter([txt])
+            return _rows_of(a), _rows_of(b), b is cat
+        paths, trunc = core.explore(run2, max_paths=500)
+        npaths += len(paths)
+        keep = [st.holds(sym, i) for i in range(N)]
+        o = C.path_obligations(paths, lambda P: z3.Or(_same_rows_vio(sym, keep, P.value[0]), _same_rows_vio(sym, keep, P.value[1]), z3.BoolVal(not P.value[2])),
+                               lambda mod, P: {'rows': sym.rows(mod), 'stmts': [st.model(mod)]}, replay,
+                               '%s %s (filtered copy, then the same statements in place)' % (attr, op), 60)
+        from .C16 import _aggregate
+        obs += _aggregate(o, paths, trunc)
     return {'obligations': [o.as_dict() for o in obs],
             'samples': [{'attribute': attr, 'events': N, 'thresholds': 'symbolic', 'paths': npaths}]}
 
